@@ -721,8 +721,14 @@ class _Expr(ast.NodeTransformer):
     _EAGER_CONSUMERS = {'max', 'min', 'sum', 'sorted', 'set', 'frozenset', 'list', 'tuple', 'dict', 'Counter'}
     _EAGER_METHODS = {'join', 'extend', 'update'}
 
+    _OPERATOR = {'gt': ast.Gt, 'lt': ast.Lt, 'ge': ast.GtE, 'le': ast.LtE, 'eq': ast.Eq, 'ne': ast.NotEq, 'contains': None}
+
     def visit_Call(self, n):
         self.generic_visit(n)
+        # operator.gt(a, b) == (a > b)
+        if isinstance(n.func, ast.Attribute) and isinstance(n.func.value, ast.Name) and n.func.value.id == 'operator' and n.func.attr in self._OPERATOR \
+                and self._OPERATOR[n.func.attr] is not None and len(n.args) == 2 and not n.keywords:
+            return self.visit_Compare(ast.Compare(left=n.args[0], ops=[self._OPERATOR[n.func.attr]()], comparators=[n.args[1]]))
         # f([e for ...]) == f((e for ...)) for a consumer that reads its whole argument; any / all only when the elements are pure
         f = n.func
         nm = f.id if isinstance(f, ast.Name) else (f.attr if isinstance(f, ast.Attribute) else None)
